@@ -166,7 +166,7 @@ func (s *c18State) install(r *Runner) {
 	old := r.Master.LaunchGate
 	r.Master.LaunchGate = func(id string) {
 		s.arrive(r, "LAUNCH", true, "task", id)
-		if t := r.Master.Task(id); t != nil && t.Terminal {
+		if t := r.Master.Task(id); t != nil && (t.Terminal || t.KillSeen > 0) {
 			// killed while still staging: a dead task never reports TASK_RUNNING
 			select {}
 		}
